@@ -293,6 +293,15 @@ def truthy(sv):
     raise OutOfSubset('truthiness of %s' % ty)
 
 
+def tree_number(t):
+    v = T.lval(t)
+    return z3.If(T.is_VInt(v), z3.ToReal(T.vint(v)), T.vreal(v))
+
+
+def tree_is_number(t):
+    return z3.And(T.is_TLeaf(t), z3.Or(T.is_VInt(T.lval(t)), T.is_VReal(T.lval(t))))
+
+
 def coerce(sv, want):
     """Coerce a value to an expected static type; None if impossible."""
     ty = sv.ty
@@ -306,6 +315,10 @@ def coerce(sv, want):
         return SV(T.INT, z3.If(sv.t, 1, 0))
     if want is XREAL and ty in (T.REAL, T.INT):
         return SV(XREAL, XREAL.fin(to_real(sv)))
+    if want == T.REAL and (ty == T.TREE or (isinstance(ty, T.Opt) and ty.inner == T.TREE)):
+        # a leaf of a nested dict read as a number (a time key): the number it holds.  For a leaf that is not a number (or an
+        # absent optional) the result is unspecified -- contracts that use this state `is_number(..)` as a precondition.
+        return SV(T.REAL, tree_number(sv.t if ty == T.TREE else ty.get(sv.t)))
     if isinstance(want, T.Opt):
         if ty == T.NONE:
             return SV(want, want.none())
